@@ -483,6 +483,7 @@ kll_sketch<T, C, A> kll_sketch<T, C, A>::deserialize(std::istream& is, const Ser
     read(is, levels.data(), sizeof(levels[0]) * num_levels);
   }
   levels[num_levels] = capacity;
+  check_levels(levels, num_levels);
   optional<T> tmp; // space to deserialize min and max
   optional<T> min_item;
   optional<T> max_item;
@@ -568,6 +569,7 @@ kll_sketch<T, C, A> kll_sketch<T, C, A>::deserialize(const void* bytes, size_t s
     ptr += copy_from_mem(ptr, levels.data(), sizeof(levels[0]) * num_levels);
   }
   levels[num_levels] = capacity;
+  check_levels(levels, num_levels);
   optional<T> tmp; // space to deserialize min and max
   optional<T> min_item;
   optional<T> max_item;
@@ -882,6 +884,21 @@ void kll_sketch<T, C, A>::check_preamble_ints(uint8_t preamble_ints, uint8_t fla
     if (preamble_ints != PREAMBLE_INTS_FULL) {
       throw std::invalid_argument("Possible corruption: preamble ints must be "
           + std::to_string(PREAMBLE_INTS_FULL) + " for a sketch with more than one item: " + std::to_string(preamble_ints));
+    }
+  }
+}
+
+template<typename T, typename C, typename A>
+void kll_sketch<T, C, A>::check_levels(const vector_u32& levels, uint8_t num_levels) {
+  if (num_levels == 0) {
+    throw std::invalid_argument("Possible corruption: number of levels must be positive");
+  }
+  // levels[num_levels] is the capacity of the items array
+  for (uint8_t level = 0; level < num_levels; ++level) {
+    if (levels[level] > levels[level + 1]) {
+      throw std::invalid_argument("Possible corruption: level boundaries must be non-decreasing and within capacity: level "
+          + std::to_string(level) + " starts at " + std::to_string(levels[level])
+          + ", next boundary " + std::to_string(levels[level + 1]));
     }
   }
 }
